@@ -218,7 +218,43 @@ fn hash(rng: &mut Rng, directive: &str) -> String {
     }
 }
 
+/// A small error-free tree in which one include names a leaf that exists beside two or three
+/// files loaded earlier, but neither beside the includer nor at the root: the request must fail,
+/// and fail the same way, however the loader keeps track of the files it has seen
+fn dangling_leaf_graph(rng: &mut Rng, form: Form) -> Graph {
+    let dirs = ["a", "b", "a/c", "inc"];
+    let leaf = ["x.h", "cfg.h", "limits.h"][rng.below(3) as usize];
+    let k = rng.range(2, 3) as usize;
+    let mut chosen: Vec<&str> = dirs.to_vec();
+    rng.shuffle(&mut chosen);
+    chosen.truncate(k);
+    let mut fs = FsSpec::new(Policy::ParentRelative);
+    let mut main = String::new();
+    let marker = |name: &str, v: u64| match form {
+        Form::Pre => format!("{name} {v} ;\n"),
+        Form::Compile => format!("static const int {name} = {v} ;\n"),
+    };
+    for (i, d) in chosen.iter().enumerate() {
+        fs.files.insert(format!("{d}/{leaf}"), marker(&format!("m_{}_1", i + 1), i as u64 + 1));
+        main.push_str(&format!("#include \"{d}/{leaf}\"\n"));
+    }
+    main.push_str(&marker("m_0_1", 9));
+    main.push_str(&format!("#include \"{leaf}\"\n"));
+    main.push_str(&marker("m_0_2", 8));
+    fs.files.insert("main.rssl".into(), main);
+    Graph {
+        fs,
+        entry: "main.rssl".into(),
+        defines: Vec::new(),
+        form,
+        mode: Mode::Hostile,
+    }
+}
+
 pub fn generate(rng: &mut Rng, mode: Mode, form: Form) -> Graph {
+    if mode == Mode::Hostile && rng.chance(1, 16) {
+        return dangling_leaf_graph(rng, form);
+    }
     let n = [2usize, 3, 4, 5, 6, 7, 8][weighted(rng, &[3, 4, 4, 3, 2, 1, 1])];
 
     // paths
@@ -284,6 +320,28 @@ pub fn generate(rng: &mut Rng, mode: Mode, form: Form) -> Graph {
         let from = rng.below(n as u64) as usize;
         let to = rng.below(from as u64 + 1) as usize;
         edges[from].push(to);
+    }
+
+    // a dangling include: a leaf name that exists beside two or more other files but neither
+    // beside the includer nor at the root - it must fail the same way every time
+    let mut dangling: Option<(usize, String)> = None;
+    if mode == Mode::Hostile && rng.chance(1, 3) {
+        let leaf_of = |p: &str| p.rsplit('/').next().unwrap_or(p).to_string();
+        for cand in &paths[1..] {
+            let leaf = leaf_of(cand);
+            let dirs: Vec<&str> = paths
+                .iter()
+                .filter(|p| leaf_of(p) == leaf)
+                .map(|p| dir_of(p))
+                .collect();
+            if dirs.len() >= 2 && !dirs.contains(&"") {
+                // preferably the entry file, at its end, when most files have been loaded
+                if let Some(i) = (0..n).find(|i| !dirs.contains(&dir_of(&paths[*i]))) {
+                    dangling = Some((i, leaf));
+                    break;
+                }
+            }
+        }
     }
 
     // an #if that opens in a header and closes in the includer (paste semantics)
@@ -536,6 +594,18 @@ pub fn generate(rng: &mut Rng, mode: Mode, form: Form) -> Graph {
         }
         if protection == 2 {
             lines.push("#endif".into());
+        }
+        if let Some((di, leaf)) = &dangling
+            && *di == i
+        {
+            // the files of that name are loaded first (by their full paths), so that a resolver
+            // with a fallback over "files seen so far" has several candidates
+            if i == 0 {
+                for p in paths.iter().filter(|p| p.rsplit('/').next() == Some(leaf.as_str())) {
+                    lines.push(format!("#include \"{p}\""));
+                }
+            }
+            lines.push(format!("#include \"{leaf}\""));
         }
         let mut text = lines.join("\n");
         if !rng.chance(1, 8) {
